@@ -145,6 +145,14 @@ class C20(Prop):
             return _same_outcome(lambda: _meta_outcome(metadata, dict(raw)), lambda: _meta_outcome(metadata, dict(items)), "raw-metadata key order")
         if law == "env_key_order":
             env = {"os_name": "posix", "sys_platform": "linux", "python_version": "3.9", "extra": "a_b", "platform_machine": "x86_64"}
+            if rng.random() < 0.6:
+                # a *complete* environment (every marker variable), as a caller describing a target platform passes it
+                env = {"implementation_name": "cpython", "implementation_version": "3.13.0", "os_name": "posix", "platform_machine": "x86_64",
+                       "platform_release": "6.1", "platform_system": "Linux", "platform_version": "#1", "python_full_version": rng.choice(["3.13.0", "3.13.0+"]),
+                       "platform_python_implementation": "CPython", "python_version": "3.13", "sys_platform": "linux"}
+                k = rng.random()
+                if k < 0.4:
+                    env["extra"] = rng.choice([None, "a_b", ""])
             items = list(env.items()); rng.shuffle(items)
             m = markers.Marker("(os_name == 'posix' or extra == 'A-B') and python_version >= '3' and platform_machine != 'arm'")
             e1, e2 = dict(env), dict(items)
